@@ -263,6 +263,7 @@ class Run:
         self.dir_cfg = {}  # dir_rel -> plain config last written to that directory's config.yaml
         self.src_cfg_at_boot = {}
         self.solvers_attrs = {}
+        self.perms = {}
         self.fsdir = None
         self.stats = {}
         self.error = None
@@ -600,6 +601,12 @@ def execute(plan: dict, root: str) -> Run:
                 st0 = capture(solver)
                 boot["state"] = digest_state(st0)
                 boot["iteration"] = int(solver.iteration)
+                try:
+                    boot["shape"] = [int(x) for x in solver.batch_processor.batch_shape] + [int(solver.n_pad)]
+                    boot["gamma"] = float(solver.gamma)
+                    boot["values_dtype"] = str(np.asarray(solver.values).dtype)
+                except AttributeError as e:
+                    raise HarnessError(f"seam missing: {e}")
                 run.boots.append({"state": st0, "solver": solver})
                 try:
                     import copy as _copy
@@ -728,6 +735,12 @@ def execute(plan: dict, root: str) -> Run:
                 run.end_contents[li] = load_contents(world, fsdir, dst_rel, root)
         h["events_gates"] = None
         run.solvers.append(solver)
+        if solver is not None and type(solver).__name__ == "SemiAsyncValueIteration":
+            perms = getattr(solver, "_verif_permutations", None)
+            if perms is None and ctx.sweep_raw:
+                raise HarnessError("seam missing: MDPAX_VERIF hook did not record the semi-async update order")
+            run.perms[li] = [None if p is None else np.array(p) for p in (perms or [])]
+            h["perm_digests"] = [dg(p) for p in run.perms[li]]
         if solver is not None and not (crashed and ctx.crashed and ctx.crashed["seam"][0] == "construct"):
             cur_rel = dst_rel
             ckpt = dict(eff)
